@@ -32,6 +32,9 @@ func dbDir(plan *crashkit.Plan) string { return filepath.Join(plan.Dir, "db") }
 
 func openNode(plan *crashkit.Plan, w *Workload, rec *crashkit.Recorder) (*node.Node, error) {
 	dir := dbDir(plan)
+	if plan.Role == "recover" && w.RecoverUtxoCache != 0 {
+		w.Cfg.UtxoCache = w.RecoverUtxoCache
+	}
 	cb := func(e node.IOEvent) error {
 		return rec.Event(crashkit.Event{Kind: e.Kind, FileNum: e.FileNum, Off: e.Off, N: e.N})
 	}
